@@ -8,9 +8,20 @@ export RUSTUP_TOOLCHAIN=1.88.0 CARGO_NET_OFFLINE=true
 cd "$WT" || exit 2
 git checkout -q -- . ; git clean -fdq -- chitchat chitchat-test >/dev/null 2>&1
 git apply "$D/patch.diff" || { echo "patch does not apply"; exit 3; }
-# one suite at a time on this machine
-exec 9>/tmp/suite.lock; flock 9
-timeout 2400 cargo test --workspace --no-fail-fast --offline >"$D/eval_suite.log" 2>&1
+# each suite runs in its own network namespace (own loopback): several suites at once no longer collide on the fixed
+# UDP ports the tests bind; at most 4 at a time (real timers in the perf tests)
+NS="unshare -n"; $NS true 2>/dev/null || NS=""
+inns() { if [ -n "$NS" ]; then $NS sh -c 'ip link set lo up 2>/dev/null; exec "$@"' sh "$@"; else "$@"; fi; }
+slot=0; exec 9>/tmp/suite.lock.0
+if [ -n "$NS" ]; then
+  while true; do
+    for slot in 0 1 2 3; do exec 9>/tmp/suite.lock.$slot; flock -n 9 && break 2; done
+    sleep 5
+  done
+else
+  exec 9>/tmp/suite.lock; flock 9
+fi
+inns timeout 2400 cargo test --workspace --no-fail-fast --offline >"$D/eval_suite.log" 2>&1
 passed=$(grep -E "^test result" "$D/eval_suite.log" | sed -E 's/.* ([0-9]+) passed.*/\1/' | paste -sd+ | bc)
 fails=$(grep -E "^test .* FAILED" "$D/eval_suite.log" | sed -E 's/^test ([^ ]+) .*/\1/' | grep -v -E "test_bandwidth_100|test_delay_before_dead_detection_100" | sort -u)
 still=""
@@ -18,8 +29,8 @@ for t in $fails; do
   ok=0
   for i in 1 2 3; do
     short=${t##*::}
-    if timeout 600 cargo test --workspace --offline -- --exact "$t" >"$D/eval_retry.log" 2>&1 && grep -q "1 passed" "$D/eval_retry.log"; then ok=1; break; fi
-    if timeout 600 cargo test --workspace --offline "$short" >"$D/eval_retry.log" 2>&1 && ! grep -q "FAILED" "$D/eval_retry.log"; then ok=1; break; fi
+    if inns timeout 600 cargo test --workspace --offline -- --exact "$t" >"$D/eval_retry.log" 2>&1 && grep -q "1 passed" "$D/eval_retry.log"; then ok=1; break; fi
+    if inns timeout 600 cargo test --workspace --offline "$short" >"$D/eval_retry.log" 2>&1 && ! grep -q "FAILED" "$D/eval_retry.log"; then ok=1; break; fi
   done
   [ $ok -eq 0 ] && still="$still $t"
 done
